@@ -18,8 +18,8 @@ func (x *Exec) keyTerm(kt types.Type, k Val) *Term {
 		return x.flatten(k)[0]
 	}
 	if iv, ok := k.(*IfaceV); ok {
-		// (tag, ref) pair folded into one Int through an injective pairing box
-		return x.boxTerm(types.NewTuple(types.NewVar(0, nil, "tag", types.Typ[types.Int]), types.NewVar(0, nil, "ref", types.Typ[types.Int])), []*Term{iv.Tag, iv.Ref})
+		// (tag, ref) pair folded into one Int through an injective pairing function
+		return x.pairTerm(iv.Tag, iv.Ref)
 	}
 	return x.boxTerm(kt, x.flatten(k))
 }
@@ -206,4 +206,17 @@ func (x *Exec) rangeNext(fr *Frame, in *ssa.Next) {
 func isInvalid(t types.Type) bool {
 	b, ok := t.(*types.Basic)
 	return ok && b.Kind() == types.Invalid
+}
+
+// pairTerm: injective pairing of two Ints (interface map keys).
+func (x *Exec) pairTerm(a, b *Term) *Term {
+	name := quoteName("pair:iface")
+	if !x.sc.seen[name] {
+		x.sc.seen[name] = true
+		x.sc.emit("(declare-fun " + name + " (Int Int) Int)")
+		x.sc.emit("(declare-fun |pair:fst| (Int) Int)")
+		x.sc.emit("(declare-fun |pair:snd| (Int) Int)")
+		x.sc.emit("(assert (forall ((a!p Int) (b!p Int)) (! (and (= (|pair:fst| (" + name + " a!p b!p)) a!p) (= (|pair:snd| (" + name + " a!p b!p)) b!p)) :pattern ((" + name + " a!p b!p)))))")
+	}
+	return x.sc.def(app(SInt, name, a, b), "pair")
 }
